@@ -64,7 +64,7 @@ Next == AddLeaf \/ OpenEmbedded \/ OpenNamed
 RECURSIVE Sum(_,_)
 Sum(s, w) == IF s = <<>> THEN 0
              ELSE LET f == Head(s) IN
-                  ((w % 1009 + 1) * (FSize(f) * 7 + FAlign(f) * 3 + (IF f.emb = "ptr" THEN 5 ELSE IF f.emb = "val" THEN 11 ELSE 1)
+                  (((w % 1009) + 1) * (FSize(f) * 7 + FAlign(f) * 3 + (IF f.emb = "ptr" THEN 5 ELSE IF f.emb = "val" THEN 11 ELSE 1)
                         + (IF f.tag.txt = "" THEN 0 ELSE 13)) + Sum(f.sub, w * 3 + 1) + Sum(Tail(s), w * 5 + 2)) % 1000003
 Checksum(s) == Sum(s, 1)
 ====
